@@ -3,6 +3,7 @@ package harness
 import (
 	"fmt"
 	"math"
+	"regexp"
 	"sort"
 	"strconv"
 	"strings"
@@ -139,8 +140,18 @@ func (c20) Gen(r *simrt.Rand, idx int, tier string) *Case {
 				if r.P(0.6) {
 					mp += ":" + fmt.Sprint(r.Range(0, 2))
 				}
-				c.ArgSet = [][]string{{"-m", mp + ",."}}
+				rx := "."
+				if r.P(0.5) {
+					// a rule that matches only some commodities: a group node can then be
+					// a collapsed leaf and a parent of other members at the same time
+					rx = []string{cs[r.Intn(len(cs))], "^Stocks", "^Alt:Metal", "^Cash", "US"}[r.Intn(5)]
+				}
+				c.ArgSet = [][]string{{"-m", mp + "," + rx}}
 			}
+		}
+		if c.Sub == "weights" && r.P(0.4) {
+			// no universe: everything is under Other; collapse some commodities into it
+			c.ArgSet = [][]string{{"-m", fmt.Sprintf("%d,%s", r.Range(1, 2), cs[r.Intn(len(cs))])}}
 		}
 		if r.P(0.3) {
 			// an account filter on portfolio accounts
@@ -160,6 +171,9 @@ func (c20) Gen(r *simrt.Rand, idx int, tier string) *Case {
 		_, max, _ := c.J.TxnSpan()
 		iv := r.Range(IvWeekly, IvQuarterly)
 		c.Args = []string{ivFlag[iv], "--to", (max + Day(r.Range(0, 30))).String()}
+		if r.P(0.4) {
+			c.Args = append(c.Args, "--last", strconv.Itoa(r.Range(1, 6)))
+		}
 		c.L = RandLayout(r, c.J, 3)
 	}
 	return c
@@ -345,7 +359,13 @@ func (c20) Eval(c *Case) (*Violation, bool) {
 			}
 			for _, as := range c.ArgSet {
 				if len(as) == 2 && as[0] == "-m" {
-					ls := strings.Split(strings.SplitN(as[1], ",", 2)[0], ":")
+					parts := strings.SplitN(as[1], ",", 2)
+					if len(parts) == 2 {
+						if ok, _ := regexp.MatchString(parts[1], strings.Join(ss, ":")); !ok {
+							continue
+						}
+					}
+					ls := strings.Split(parts[0], ":")
 					level, _ := strconv.Atoi(ls[0])
 					suffix := 0
 					if len(ls) == 2 {
@@ -354,6 +374,7 @@ func (c20) Eval(c *Case) (*Violation, bool) {
 					if level < len(ss)-suffix {
 						ss = append(append([]string{}, ss[:level]...), ss[len(ss)-suffix:]...)
 					}
+					break // the first matching rule applies
 				}
 			}
 			return strings.Join(ss, "/")
@@ -368,56 +389,46 @@ func (c20) Eval(c *Case) (*Violation, bool) {
 				expLeaf[k][i] += v[i]
 			}
 		}
-		childSum := map[string][]float64{}
 		own := map[string][]float64{}
-		isParent := map[string]bool{}
+		topSum := make([]float64, len(hdr))
 		for _, r := range rows {
 			key := strings.Join(r.Path, "/")
 			ws := make([]float64, len(hdr))
 			for i := range hdr {
 				ws[i], _ = pct(r.Cells[i])
 			}
+			if _, dup := own[key]; dup {
+				return &Violation{Signature: "duplicate-weights-row", Msg: "row " + key + " appears twice", Detail: ow.Stdout}, false
+			}
 			own[key] = ws
-			if len(r.Path) > 1 {
-				pk := strings.Join(r.Path[:len(r.Path)-1], "/")
-				isParent[pk] = true
-				if childSum[pk] == nil {
-					childSum[pk] = make([]float64, len(hdr))
-				}
-				for i := range ws {
-					childSum[pk][i] += ws[i]
+			if len(r.Path) == 1 {
+				for i := range hdr {
+					topSum[i] += ws[i]
 				}
 			}
 		}
-		topSum := make([]float64, len(hdr))
+		// every node shows the sum of the commodities shown at or below it
 		for _, r := range rows {
 			key := strings.Join(r.Path, "/")
-			if len(r.Path) == 1 {
-				for i := range hdr {
-					topSum[i] += own[key][i]
-				}
-			}
-			if isParent[key] {
-				for i := range hdr {
-					if math.Abs(own[key][i]-childSum[key][i]) > 2e-6*float64(len(rows)) {
-						return &Violation{Signature: "group-not-sum-of-members", Msg: fmt.Sprintf("group %s at %s shows %.6f%%, members sum to %.6f%%", key, hdr[i], own[key][i]*100, childSum[key][i]*100), Detail: ow.Stdout}, false
-					}
-				}
-				continue
-			}
-			// a leaf: one commodity, or the commodities a mapping collapses onto it
-			com := key
 			for i, h := range hdr {
 				bi := colOf[h]
 				if math.Abs(total[bi]) < 1e-6 {
 					continue
 				}
 				want := 0.0
-				if v := expLeaf[key]; v != nil {
-					want = v[bi] / total[bi]
+				members := 0
+				for k, v := range expLeaf {
+					if k == key || strings.HasPrefix(k, key+"/") {
+						want += v[bi] / total[bi]
+						members++
+					}
 				}
-				if math.Abs(own[key][i]-want) > 1e-6+1e-7/math.Abs(total[bi]) {
-					return &Violation{Signature: "wrong-weight", Msg: fmt.Sprintf("weight of %s at %s is %.6f%%, the valued balance gives %.6f%%", com, h, own[key][i]*100, want*100), Detail: fmt.Sprintf("argv: %v\n%s\n%s", argv, ow.Stdout, ob.Stdout)}, false
+				if math.Abs(own[key][i]-want) > 1e-6*float64(members+1)+1e-7/math.Abs(total[bi]) {
+					sig := "wrong-weight"
+					if members > 1 {
+						sig = "group-not-sum-of-members"
+					}
+					return &Violation{Signature: sig, Msg: fmt.Sprintf("%s at %s shows %.6f%%, the valued balance gives %.6f%% (%d commodities at or below it)", key, h, own[key][i]*100, want*100, members), Detail: fmt.Sprintf("argv: %v\n%s\n%s", argv, ow.Stdout, ob.Stdout)}, false
 				}
 			}
 		}
@@ -498,23 +509,50 @@ func (c20) Eval(c *Case) (*Violation, bool) {
 				}
 			}
 		case "returns-noflows":
-			tot := make([]float64, len(bt.Dates))
-			for _, row := range bt.Rows {
-				if row.Section != "AL" || row.Com == "" {
+			// end values of all periods of the full partition (without --last)
+			var full []string
+			for i := 0; i < len(c.Args); i++ {
+				if c.Args[i] == "--last" {
+					i++
 					continue
 				}
-				for i, v := range row.Vals {
-					f, _ := v.Float64()
-					tot[i] += f
+				full = append(full, c.Args[i])
+			}
+			fa := append([]string{"balance", "--color=false", "--digits", "8", "-v", c.Val, "-s", ".", "--close=false", "-a"}, full...)
+			fa = append(fa, main)
+			of := Run(c.specFor(s, files, fa))
+			if !of.OK() {
+				return nil, true
+			}
+			ft, err := ParseBalText(of.Stdout)
+			if err != nil {
+				return &Violation{Signature: "unreadable-table", Msg: err.Error(), Detail: of.Stdout}, false
+			}
+			tot := map[Day]float64{}
+			var order []Day
+			for i, d := range ft.Dates {
+				order = append(order, d)
+				for _, row := range ft.Rows {
+					if row.Section != "AL" || row.Com == "" {
+						continue
+					}
+					f, _ := row.Vals[i].Float64()
+					tot[d] += f
 				}
 			}
-			for i := 1; i < len(lines); i++ {
-				if math.Abs(tot[i-1]) < 1e-6 {
-					continue
+			for _, l := range lines {
+				g := -1
+				for k, d := range order {
+					if d == l.d {
+						g = k
+					}
 				}
-				want := (tot[i]/tot[i-1] - 1) * 100
-				if math.Abs(lines[i].p-want) > 0.06 {
-					return &Violation{Signature: "wrong-return", Msg: fmt.Sprintf("period ending %s: %.1f%%, end value / start value - 1 = %.3f%%", lines[i].d, lines[i].p, want), Detail: or.Stdout + ob.Stdout}, false
+				if g < 1 || math.Abs(tot[order[g-1]]) < 1e-6 {
+					continue // the very first period holds the funding
+				}
+				want := (tot[order[g]]/tot[order[g-1]] - 1) * 100
+				if math.Abs(l.p-want) > 0.06 {
+					return &Violation{Signature: "wrong-return", Msg: fmt.Sprintf("period ending %s: %.1f%%, end value / start value - 1 = %.3f%%", l.d, l.p, want), Detail: fmt.Sprintf("argv: %v\n%s\n%s", argv, or.Stdout, of.Stdout)}, false
 				}
 			}
 		}
